@@ -9,6 +9,8 @@
        them. *)
 From RxVerif Require Import Base.Prelude Ops.Machine Ops.MachineFacts Ops.ComposeFacts
   Core.AutoDetach Core.AutoDetachFacts Core.ObserverBase Core.ObserverBaseFacts.
+From RxVerif Require Ops.MultiWin Ops.MultiWinFacts Ops.Windows Ops.MultiWinGrammar.
+From RxVerif Require Import Core.ExecWrapped Ops.Elementwise.
 
 Theorem C01_autodetach_grammar : forall A (h : list (call A)) (st : bool),
   wellformed (delivered (snd (run_calls st h))) = true.
@@ -100,3 +102,100 @@ Example C01_observer_base_witness :
                              Call (KFail 6) [] false])
      = [Deliver (Err 5); Raised 77; FailReturned false].
 Proof. vm_compute. split; reflexivity. Qed.
+
+(* (e) subscribers served by the window/group runner (Ops/MultiWin.v; windows, buffers, groups), for EVERY
+   machine, EVERY subscription policy and EVERY input sequence (Ops/MultiWinGrammar.v).
+   The OUTER subscriber -- plain elements and handed observables are its on_next calls: *)
+Theorem C01_window_outer_grammar :
+  forall A W B (imm : nat -> bool) (m : MultiWin.machine A W B) (ins : list (Z * MultiWin.inp A)),
+  wellformed (MultiWinGrammar.outer_view (fst (MultiWin.run imm m ins))) = true.
+Proof. exact @MultiWinGrammar.run_outer_grammar. Qed.
+Print Assumptions C01_window_outer_grammar.
+Theorem C01_window_outer_elements_grammar :
+  forall A W B (imm : nat -> bool) (m : MultiWin.machine A W B) (ins : list (Z * MultiWin.inp A)),
+  wellformed (MultiWin.emitted (fst (MultiWin.run imm m ins))) = true.
+Proof. exact @MultiWinGrammar.run_emitted_grammar. Qed.
+Print Assumptions C01_window_outer_elements_grammar.
+
+(* A handed window / group g.  [wevents g] is the MERGED record of all subscriptions of g (a notification is
+   logged once per live subscription; a subscription made after g's terminal is answered with that terminal).
+   With at most one subscription of g attempted during the run -- made inside the on_next that hands g (policy
+   imm) or by an explicit ISubWin g -- the record is what that one subscriber sees, and it is in the grammar: *)
+Theorem C01_window_subscribers_grammar :
+  forall A W B (g : nat) (imm : nat -> bool) (m : MultiWin.machine A W B) (ins : list (Z * MultiWin.inp A)),
+  (MultiWinGrammar.attempts g imm (fst (MultiWin.run imm m ins)) ins <= 1)%nat ->
+  wellformed (MultiWin.wevents g (fst (MultiWin.run imm m ins))) = true.
+Proof. exact @MultiWinGrammar.run_window_single_subscriber_grammar. Qed.
+Print Assumptions C01_window_subscribers_grammar.
+(* with any number of subscriptions: elements, then copies of ONE terminal, at most one copy per attempted
+   subscription -- no element after a terminal, no two different terminals *)
+Theorem C01_window_merged_record_grammar :
+  forall A W B (g : nat) (imm : nat -> bool) (m : MultiWin.machine A W B) (ins : list (Z * MultiWin.inp A)),
+  exists ns t n,
+    MultiWin.wevents g (fst (MultiWin.run imm m ins)) = ns ++ repeat t n
+    /\ Forall (fun e => is_terminal e = false) ns /\ is_terminal t = true
+    /\ (n <= MultiWinGrammar.attempts g imm (fst (MultiWin.run imm m ins)) ins)%nat.
+Proof. exact @MultiWinGrammar.run_window_grammar. Qed.
+Print Assumptions C01_window_merged_record_grammar.
+(* the unconditional statement "wevents g is well-formed" is FALSE of the model: two subscriptions of one
+   window, or one made after its terminal, put the terminal twice into the merged record (each subscriber's
+   own sequence is well-formed, in the model and in the library) *)
+Theorem C01_window_grammar_all_subscriptions_refuted :
+  ~ (forall (imm : nat -> bool) (m : MultiWin.machine Z Z unit) ins g,
+       wellformed (MultiWin.wevents g (fst (MultiWin.run imm m ins))) = true).
+Proof. exact MultiWinGrammar.window_grammar_all_subscriptions_refuted. Qed.
+Print Assumptions C01_window_grammar_all_subscriptions_refuted.
+
+(* witnesses: overlapping count windows, every window subscribed when handed, a source that errors and then
+   keeps emitting: one subscription of window 0 was attempted (the hypothesis above), its record and the
+   outer's are in the grammar; with a second subscription of window 0 the merged record is not *)
+Example C01_window_witness :
+  let ins := [(0, MultiWin.ISrc 0%nat (Next 1)); (0, MultiWin.ISrc 0%nat (Next 2));
+              (0, MultiWin.ISrc 0%nat (Err 3)); (0, MultiWin.ISrc 0%nat (Next 4))] in
+  let tr := fst (MultiWin.run MultiWin.all_imm (Windows.x_window_count (A:=Z) (B:=unit) 2 1) ins) in
+  MultiWinGrammar.attempts 0%nat MultiWin.all_imm tr ins = 1%nat
+  /\ MultiWin.wevents 0 tr = [Next 1; Next 2; Done]
+  /\ MultiWin.wevents 2 tr = [Err 3]
+  /\ MultiWinGrammar.outer_view tr = [Next None; Next None; Next None; Err 3].
+Proof. vm_compute. auto. Qed.
+Example C01_window_witness_two_subscriptions :
+  MultiWin.wevents 0 (fst (MultiWin.run MultiWin.all_imm (Windows.x_window_count (A:=Z) (B:=unit) 1 1)
+                            [(0, MultiWin.ISrc 0%nat (Next 1)); (0, MultiWin.ISubWin 0%nat)]))
+  = [Next 1; Done; Done].
+Proof. vm_compute. reflexivity. Qed.
+
+(* (f) the link between (a) and (b): [exec] IS the AutoDetach model around the raw handlers
+   (Core/ExecWrapped.v).  [raw m ins] iterates the handlers over ins with no liveness check at all;
+   [in_calls] / [out_calls] turn the source's notifications / the handlers' answers into (flat, non-raising)
+   calls on a wrapper.  For EVERY machine and EVERY input list: the subscriber of [exec] sees what the
+   downstream wrapper lets through of the raw answers to what the wrapper around the handlers lets through
+   of the source.  The operator and pipeline grammar theorems above hold BY CONSTRUCTION of [exec]; through
+   this theorem they are consequences of C01_autodetach_grammar. *)
+Theorem C01_exec_is_wrapped_raw : forall A B (m : mealy A B) (ins : list (ev A)),
+  delivered (snd (run_calls false
+    (out_calls (raw m (delivered (snd (run_calls false (in_calls ins))))))))
+  = untag (exec m ins).
+Proof. exact @exec_is_wrapped_raw. Qed.
+Print Assumptions C01_exec_is_wrapped_raw.
+(* the two wrappers separately *)
+Theorem C01_exec_behind_input_wrapper : forall A B (m : mealy A B) (ins : list (ev A)),
+  exec m ins = exec m (delivered (snd (run_calls false (in_calls ins)))).
+Proof. exact @exec_behind_input_wrapper. Qed.
+Print Assumptions C01_exec_behind_input_wrapper.
+Theorem C01_exec_is_output_wrapper_on_raw : forall A B (m : mealy A B) (ins : list (ev A)),
+  upto_term ins = ins ->
+  delivered (snd (run_calls false (out_calls (raw m ins)))) = untag (exec m ins).
+Proof. exact @exec_is_output_wrapper_on_raw. Qed.
+Print Assumptions C01_exec_is_output_wrapper_on_raw.
+(* the grammar of exec, derived from the AutoDetach theorem (not from the shape of exec) *)
+Theorem C01_operator_grammar_from_autodetach : forall A B (m : mealy A B) (ins : list (ev A)),
+  wellformed (untag (exec m ins)) = true.
+Proof. exact @exec_wellformed_from_autodetach. Qed.
+Print Assumptions C01_operator_grammar_from_autodetach.
+(* witness that the wrappers do something: take(5) on a source that completes and then goes on -- the raw
+   handlers answer the late element and complete twice; behind the wrappers the subscriber sees Next 1, Done *)
+Example C01_exec_witness_raw_vs_wrapped :
+  raw (op_take 5) [Next 1; Done; Next 4; Done] = [([], Cont); ([1], Cont); ([], Complete); ([4], Cont); ([], Complete)]
+  /\ untag (exec (op_take 5) [Next 1; Done; Next 4; Done]) = [Next 1; Done]
+  /\ upto_term [Next 1; Done] = [Next 1; @Done Z].
+Proof. vm_compute. auto. Qed.
